@@ -332,6 +332,7 @@ PROPS = {
         verus=[U("c14_normalise", ["C14.V.normalise.weight_over_total", "C14.V.normalise.uninitialized"]), U("split_by", ["V.SplitsByMut.next.partition"]),
                U("lib_plumbing", ["C14.V.from_named.pairs_tables", "C14.V.from_named_eq.pairs_tables"]),
                U("c14_hash_skeleton", ["C14.V.hash_import.is_its_phases (no shortcut around validation / normalisation / the all-singles check)"]),
+               U("c14_hash_dispatch", ["C14.V.hash_import.entry_dispatch (an imported entry is validated against ITS infoset's table: multi-action table first, then the single-action table; the other table is untouched)", "C14.V.hash_import.rejects_unknown_infoset", "C14.V.scan_import.entry_dispatch (the scanning importer dispatches the same way, with the row's own offset)", "C14.V.scan_import.rejects_unknown_infoset"]),
                U("c14_slow_skeleton", ["C14.V.scan_import.offsets_are_prefix_sums", "C14.V.scan_import.is_its_phases"]),
                U("c11_init_recurse", ["C11.V.init_recurse.single_action_recorded_once (the table of single-action infosets both importers check coverage against lists each such infoset once)"]),
                U("c14_hash_validate", ["C14.V.hash_import.rejects_bad_weight", "C14.V.hash_import.rejects_unknown_action", "C14.V.hash_import.stores_weight",
@@ -340,7 +341,7 @@ PROPS = {
                                        "C14.V.scan_import.rejects_bad_weight", "C14.V.scan_import.rejects_unknown_action", "C14.V.scan_import.stores_weight"])],
         kani_functions=["src/lib.rs :: impl Game / fn strat_into_box_slow"],
         trusted_base=["assumed contracts on std::borrow::Borrow, HashMap::{get, insert}, Clone of user key types (c14_hash_validate)"],
-        not_decided=["strat_into_box (hash path) beyond its per-entry validation kernel and index assignment: which infoset table an entry is looked up in, the all-singles-seen check, and the agreement of the two paths", "exact normalised values"],
+        not_decided=["strat_into_box beyond its phases, per-entry validation kernels, entry dispatch and index assignment: the all-singles-seen check (an `all` over the marks, pinned textually) and the agreement of the hashing and scanning paths as whole functions (they are shown to obey the same per-entry and dispatch contracts)", "exact normalised values"],
     ),
     "C19": dict(
         level="proof",
